@@ -311,3 +311,289 @@ Proof.
   intros Hw Hwf Hs. destruct (shr_pad_internal_val w n x s false Hw Hwf Hs) as (H1 & H2).
   split; [exact H1|]. rewrite H2. lia.
 Qed.
+
+(* ================================================================== *)
+(* sign of a digit list                                                *)
+(* ================================================================== *)
+
+Lemma is_negative_spec w n x : 0 < w -> (0 < n)%nat -> wf w n x ->
+  is_negative w x = (Mod w n / 2 <=? uval w x).
+Proof.
+  intros Hw Hn [Hl HF].
+  assert (Hne : x <> []) by (intros E; rewrite E in Hl; cbn in Hl; lia).
+  pose proof (uval_last w x ltac:(lia) Hne) as Hv.
+  rewrite (app_removelast_last 0 Hne) in HF. apply Forall_app in HF. destruct HF as (HFl & HFt).
+  inversion HFt as [|t0 l0 Ht _]; subst t0 l0.
+  assert (Hlen : length (removelast x) = (n - 1)%nat).
+  { pose proof (f_equal (@length Z) (app_removelast_last 0 Hne)) as E.
+    rewrite app_length in E. cbn [length] in E. lia. }
+  pose proof (uval_bounds_F w _ ltac:(lia) HFl) as Hb. rewrite Hlen in Hb.
+  rewrite Hl in Hv.
+  replace (Z.to_nat (Z.of_nat n - 1)) with (n - 1)%nat in * by lia.
+  unfold is_negative, signed_digit, sd, top_digit, to_signed.
+  set (t := last x 0) in *. unfold digit_ok, B in *.
+  assert (HB2 : 2 ^ w = 2 * 2 ^ (w - 1)).
+  { replace w with (1 + (w - 1)) at 1 by lia. rewrite pow2_split by lia. reflexivity. }
+  assert (HB2' : 2 ^ w / 2 = 2 ^ (w - 1)) by (rewrite HB2, Z.mul_comm, Z.div_mul by lia; reflexivity).
+  assert (HM : Mod w n = Mod w (n - 1) * 2 ^ w).
+  { replace n with ((n - 1) + 1)%nat at 1 by lia. rewrite Mod_add, Mod_1 by lia. reflexivity. }
+  assert (HM2 : Mod w n / 2 = Mod w (n - 1) * 2 ^ (w - 1)).
+  { rewrite HM, HB2. replace (Mod w (n - 1) * (2 * 2 ^ (w - 1))) with (Mod w (n - 1) * 2 ^ (w - 1) * 2) by ring.
+    apply Z.div_mul; lia. }
+  rewrite HB2', HM2, Hv.
+  replace (Z.of_nat n - 1) with (Z.of_nat (n - 1)) by lia.
+  fold (Mod w (n - 1)).
+  replace (Mod w (Z.to_nat (Z.of_nat (n - 1)))) with (Mod w (n - 1)) by (f_equal; lia).
+  pose proof (pow2_pos (w - 1) ltac:(lia)) as HH.
+  set (L := uval w (removelast x)) in *. set (Mn := Mod w (n - 1)) in *. set (H := 2 ^ (w - 1)) in *.
+  destruct (Z.ltb_spec t H) as [Hlt|Hge].
+  - assert (Mn * t <= Mn * (H - 1)) by (apply Z.mul_le_mono_nonneg_l; lia).
+    destruct (Z.ltb_spec t 0); destruct (Z.leb_spec (Mn * H) (L + Mn * t)); try reflexivity; lia.
+  - assert (Mn * H <= Mn * t) by (apply Z.mul_le_mono_nonneg_l; lia).
+    destruct (Z.ltb_spec (t - 2 ^ w) 0); destruct (Z.leb_spec (Mn * H) (L + Mn * t)); try reflexivity; lia.
+Qed.
+
+Lemma sval_cases w n x : 0 < w -> (0 < n)%nat -> wf w n x ->
+  sval w x = if is_negative w x then uval w x - Mod w n else uval w x.
+Proof.
+  intros Hw Hn Hwf. rewrite (is_negative_spec w n) by auto.
+  unfold sval, to_signed. rewrite (wf_length _ _ _ Hwf).
+  destruct (Z.ltb_spec (uval w x) (Mod w n / 2)); destruct (Z.leb_spec (Mod w n / 2) (uval w x));
+    try reflexivity; lia.
+Qed.
+
+Lemma is_negative_sval w n x : 0 < w -> (0 < n)%nat -> wf w n x ->
+  is_negative w x = (sval w x <? 0).
+Proof.
+  intros Hw Hn Hwf. rewrite (sval_cases w n) by auto.
+  pose proof (uval_bounds w n x ltac:(lia) Hwf).
+  destruct (is_negative w x); symmetry; [apply Z.ltb_lt | apply Z.ltb_ge]; lia.
+Qed.
+
+Lemma bits_pos_n w n s : 0 <= s < bits w n -> 0 < w -> (0 < n)%nat.
+Proof. unfold bits. intros. destruct n; [lia | lia]. Qed.
+
+(* ================================================================== *)
+(* 2 (signed). arithmetic shift right                                  *)
+(* ================================================================== *)
+
+Theorem sar_internal_ok w n x s : 0 < w -> wf w n x -> 0 <= s < bits w n ->
+  wf w n (shr_pad_internal w (is_negative w x) x s) /\
+  sval w (shr_pad_internal w (is_negative w x) x s) = sval w x / 2 ^ s.
+Proof.
+  intros Hw Hwf Hs. pose proof (bits_pos_n w n s Hs Hw) as Hn.
+  destruct (shr_pad_internal_val w n x s (is_negative w x) Hw Hwf Hs) as (Hwfr & Hv).
+  split; [exact Hwfr|].
+  rewrite (sval_cases w n x) by auto.
+  pose proof (is_negative_spec w n x Hw Hn Hwf) as Hneg.
+  pose proof (uval_bounds w n x ltac:(lia) Hwf) as HX.
+  unfold sval, to_signed. rewrite (wf_length _ _ _ Hwfr), Hv.
+  set (X := uval w x) in *. set (M := Mod w n) in *.
+  pose proof (pow2_pos s ltac:(lia)) as H2s.
+  assert (HXs : 0 <= X / 2 ^ s) by (apply Z.div_pos; lia).
+  assert (HXs' : X / 2 ^ s <= X) by (apply Z.div_le_upper_bound; nia).
+  destruct (is_negative w x).
+  - symmetry in Hneg. apply Z.leb_le in Hneg.
+    set (T2 := 2 ^ (bits w n - s - 1)).
+    assert (HT2 : 0 < T2) by (apply pow2_pos; lia).
+    assert (HT : 2 ^ (bits w n - s) = 2 * T2).
+    { unfold T2. replace (bits w n - s) with (1 + (bits w n - s - 1)) at 1 by lia.
+      rewrite pow2_split by lia. reflexivity. }
+    assert (HM : M = 2 * T2 * 2 ^ s).
+    { rewrite <- HT, <- pow2_split by lia. unfold M, Mod, bits. f_equal. lia. }
+    assert (HM2 : M / 2 = T2 * 2 ^ s).
+    { rewrite HM. replace (2 * T2 * 2 ^ s) with (T2 * 2 ^ s * 2) by ring. apply Z.div_mul; lia. }
+    rewrite HT, HM2 in *.
+    assert (T2 <= X / 2 ^ s) by (apply Z.div_le_lower_bound; lia).
+    assert (T2 <= T2 * 2 ^ s) by nia.
+    destruct (Z.ltb_spec (X / 2 ^ s + (M - 2 * T2)) (T2 * 2 ^ s)); [lia|].
+    replace (X - M) with (X + (- (2 * T2)) * 2 ^ s) by (rewrite HM; ring).
+    rewrite Z.div_add by lia. lia.
+  - symmetry in Hneg. apply Z.leb_gt in Hneg. rewrite Z.add_0_r.
+    destruct (Z.ltb_spec (X / 2 ^ s) (M / 2)); [reflexivity | lia].
+Qed.
+
+(* ================================================================== *)
+(* 4. amount reduction                                                 *)
+(* ================================================================== *)
+
+Definition is_pow2 (b : Z) : Prop := exists k, 0 <= k /\ b = 2 ^ k.
+
+Theorem mask_amount_pow2 w n s : is_pow2 (bits w n) -> mask_amount w n s = s mod bits w n.
+Proof.
+  intros (k & Hk & E). unfold mask_amount. rewrite E.
+  replace (2 ^ k - 1) with (Z.ones k) by (rewrite Z.ones_equiv; lia).
+  apply Z.land_ones; exact Hk.
+Qed.
+
+(* ================================================================== *)
+(* 3. unfoldings of the API wrappers                                   *)
+(* ================================================================== *)
+
+Lemma U_overflowing_shl_eq w n x s : length x = n ->
+  U_overflowing_shl w x s =
+    if bits w n <=? s then (shl_internal w x (mask_amount w n s), true) else (shl_internal w x s, false).
+Proof. intros <-; reflexivity. Qed.
+
+Lemma U_overflowing_shr_eq w n x s : length x = n ->
+  U_overflowing_shr w x s =
+    if bits w n <=? s then (shr_pad_internal w false x (mask_amount w n s), true)
+    else (shr_pad_internal w false x s, false).
+Proof. intros <-; reflexivity. Qed.
+
+Lemma I_overflowing_shr_eq w n x s : length x = n ->
+  I_overflowing_shr w x s =
+    if bits w n <=? s then (shr_pad_internal w (is_negative w x) x (mask_amount w n s), true)
+    else (shr_pad_internal w (is_negative w x) x s, false).
+Proof. intros <-. unfold I_overflowing_shr. destruct (bits w (length x) <=? s); reflexivity. Qed.
+
+Lemma U_checked_shl_eq w n x s : length x = n ->
+  U_checked_shl w x s = if bits w n <=? s then None else Some (shl_internal w x s).
+Proof. intros <-; reflexivity. Qed.
+
+Lemma U_checked_shr_eq w n x s : length x = n ->
+  U_checked_shr w x s = if bits w n <=? s then None else Some (shr_pad_internal w false x s).
+Proof. intros <-; reflexivity. Qed.
+
+Lemma I_checked_shl_eq w n x s : length x = n ->
+  I_checked_shl w x s = if bits w n <=? s then None else Some (shl_internal w x s).
+Proof.
+  intros <-. unfold I_checked_shl, I_overflowing_shl, U_overflowing_shl, tuple_to_option.
+  destruct (bits w (length x) <=? s); reflexivity.
+Qed.
+
+Lemma I_checked_shr_eq w n x s : length x = n ->
+  I_checked_shr w x s =
+    if bits w n <=? s then None else Some (shr_pad_internal w (is_negative w x) x s).
+Proof.
+  intros <-. unfold I_checked_shr, I_overflowing_shr, tuple_to_option.
+  destruct (bits w (length x) <=? s); reflexivity.
+Qed.
+
+(* a uniform shape for the eight "checked / strict / inherent" results *)
+Lemma checked_shape {A} (b : bool) (v : A) (bitsn s : Z) (P : A -> Prop) :
+  b = (bitsn <=? s) -> (s < bitsn -> P v) ->
+  ((if b then None else Some v) = None <-> bitsn <= s) /\
+  (s < bitsn -> exists r, (if b then None else Some v) = Some r /\ P r).
+Proof.
+  intros -> HP. destruct (Z.leb_spec bitsn s) as [H|H]; split.
+  - split; [intros _; exact H | reflexivity].
+  - intros; lia.
+  - split; [discriminate | intros; lia].
+  - intros _. exists v. split; [reflexivity | apply HP; exact H].
+Qed.
+
+Definition shl_post (w : Z) (n : nat) (x : list Z) (s : Z) (r : list Z) : Prop :=
+  wf w n r /\ uval w r = (uval w x * 2 ^ s) mod Mod w n.
+Definition shr_post (w : Z) (n : nat) (x : list Z) (s : Z) (r : list Z) : Prop :=
+  wf w n r /\ uval w r = uval w x / 2 ^ s.
+Definition sar_post (w : Z) (n : nat) (x : list Z) (s : Z) (r : list Z) : Prop :=
+  wf w n r /\ sval w r = sval w x / 2 ^ s.
+
+Theorem U_checked_shl_ok w n x s : 0 < w -> wf w n x -> 0 <= s ->
+  (U_checked_shl w x s = None <-> bits w n <= s) /\
+  (s < bits w n -> exists r, U_checked_shl w x s = Some r /\ shl_post w n x s r).
+Proof.
+  intros Hw Hwf Hs. rewrite (U_checked_shl_eq w n) by (apply Hwf).
+  apply checked_shape; [reflexivity|]. intros; apply shl_internal_ok; auto.
+Qed.
+
+Theorem U_checked_shr_ok w n x s : 0 < w -> wf w n x -> 0 <= s ->
+  (U_checked_shr w x s = None <-> bits w n <= s) /\
+  (s < bits w n -> exists r, U_checked_shr w x s = Some r /\ shr_post w n x s r).
+Proof.
+  intros Hw Hwf Hs. rewrite (U_checked_shr_eq w n) by (apply Hwf).
+  apply checked_shape; [reflexivity|]. intros; apply shr_internal_ok; auto.
+Qed.
+
+Theorem I_checked_shl_ok w n x s : 0 < w -> wf w n x -> 0 <= s ->
+  (I_checked_shl w x s = None <-> bits w n <= s) /\
+  (s < bits w n -> exists r, I_checked_shl w x s = Some r /\ shl_post w n x s r).
+Proof.
+  intros Hw Hwf Hs. rewrite (I_checked_shl_eq w n) by (apply Hwf).
+  apply checked_shape; [reflexivity|]. intros; apply shl_internal_ok; auto.
+Qed.
+
+Theorem I_checked_shr_ok w n x s : 0 < w -> wf w n x -> 0 <= s ->
+  (I_checked_shr w x s = None <-> bits w n <= s) /\
+  (s < bits w n -> exists r, I_checked_shr w x s = Some r /\ sar_post w n x s r).
+Proof.
+  intros Hw Hwf Hs. rewrite (I_checked_shr_eq w n) by (apply Hwf).
+  apply checked_shape; [reflexivity|]. intros; apply sar_internal_ok; auto.
+Qed.
+
+(* overflowing: flag, in-range value, and (item 4) the wrapped value when BITS is a power of two *)
+Lemma mod_bits_range w n s : 0 < w -> (0 < n)%nat -> 0 <= s mod bits w n < bits w n.
+Proof. intros. apply Z.mod_pos_bound. unfold bits. nia. Qed.
+
+Lemma reduced_amount w n s : is_pow2 (bits w n) -> 0 <= s ->
+  (if bits w n <=? s then mask_amount w n s else s) = s mod bits w n.
+Proof.
+  intros Hp Hs. destruct (Z.leb_spec (bits w n) s).
+  - apply mask_amount_pow2; exact Hp.
+  - symmetry; apply Z.mod_small; lia.
+Qed.
+
+Theorem U_overflowing_shl_ok w n x s : 0 < w -> (0 < n)%nat -> wf w n x -> 0 <= s ->
+  snd (U_overflowing_shl w x s) = (bits w n <=? s) /\
+  (s < bits w n -> shl_post w n x s (fst (U_overflowing_shl w x s))) /\
+  (is_pow2 (bits w n) ->
+     fst (U_overflowing_shl w x s) = shl_internal w x (s mod bits w n) /\
+     shl_post w n x (s mod bits w n) (fst (U_overflowing_shl w x s))).
+Proof.
+  intros Hw Hn Hwf Hs. rewrite (U_overflowing_shl_eq w n) by (apply Hwf).
+  split; [destruct (bits w n <=? s); reflexivity|]. split.
+  - intros Hlt. destruct (Z.leb_spec (bits w n) s); [lia|]. apply shl_internal_ok; auto.
+  - intros Hp. pose proof (reduced_amount w n s Hp Hs) as Hr.
+    assert (E : fst (if bits w n <=? s then (shl_internal w x (mask_amount w n s), true)
+                     else (shl_internal w x s, false)) = shl_internal w x (s mod bits w n)).
+    { rewrite <- Hr. destruct (bits w n <=? s); reflexivity. }
+    rewrite E. split; [reflexivity|]. apply shl_internal_ok; auto. apply mod_bits_range; auto.
+Qed.
+
+Theorem U_overflowing_shr_ok w n x s : 0 < w -> (0 < n)%nat -> wf w n x -> 0 <= s ->
+  snd (U_overflowing_shr w x s) = (bits w n <=? s) /\
+  (s < bits w n -> shr_post w n x s (fst (U_overflowing_shr w x s))) /\
+  (is_pow2 (bits w n) ->
+     fst (U_overflowing_shr w x s) = shr_pad_internal w false x (s mod bits w n) /\
+     shr_post w n x (s mod bits w n) (fst (U_overflowing_shr w x s))).
+Proof.
+  intros Hw Hn Hwf Hs. rewrite (U_overflowing_shr_eq w n) by (apply Hwf).
+  split; [destruct (bits w n <=? s); reflexivity|]. split.
+  - intros Hlt. destruct (Z.leb_spec (bits w n) s); [lia|]. apply shr_internal_ok; auto.
+  - intros Hp. pose proof (reduced_amount w n s Hp Hs) as Hr.
+    assert (E : fst (if bits w n <=? s then (shr_pad_internal w false x (mask_amount w n s), true)
+                     else (shr_pad_internal w false x s, false))
+                = shr_pad_internal w false x (s mod bits w n)).
+    { rewrite <- Hr. destruct (bits w n <=? s); reflexivity. }
+    rewrite E. split; [reflexivity|]. apply shr_internal_ok; auto. apply mod_bits_range; auto.
+Qed.
+
+Theorem I_overflowing_shr_ok w n x s : 0 < w -> (0 < n)%nat -> wf w n x -> 0 <= s ->
+  snd (I_overflowing_shr w x s) = (bits w n <=? s) /\
+  (s < bits w n -> sar_post w n x s (fst (I_overflowing_shr w x s))) /\
+  (is_pow2 (bits w n) ->
+     fst (I_overflowing_shr w x s) = shr_pad_internal w (is_negative w x) x (s mod bits w n) /\
+     sar_post w n x (s mod bits w n) (fst (I_overflowing_shr w x s))).
+Proof.
+  intros Hw Hn Hwf Hs. rewrite (I_overflowing_shr_eq w n) by (apply Hwf).
+  split; [destruct (bits w n <=? s); reflexivity|]. split.
+  - intros Hlt. destruct (Z.leb_spec (bits w n) s); [lia|]. apply sar_internal_ok; auto.
+  - intros Hp. pose proof (reduced_amount w n s Hp Hs) as Hr.
+    assert (E : fst (if bits w n <=? s
+                     then (shr_pad_internal w (is_negative w x) x (mask_amount w n s), true)
+                     else (shr_pad_internal w (is_negative w x) x s, false))
+                = shr_pad_internal w (is_negative w x) x (s mod bits w n)).
+    { rewrite <- Hr. destruct (bits w n <=? s); reflexivity. }
+    rewrite E. split; [reflexivity|]. apply sar_internal_ok; auto. apply mod_bits_range; auto.
+Qed.
+
+(* I_overflowing_shl is U_overflowing_shl; the wrapping forms are the first components *)
+Lemma I_overflowing_shl_is_U : I_overflowing_shl = U_overflowing_shl.
+Proof. reflexivity. Qed.
+Lemma wrapping_is_fst w x s :
+  U_wrapping_shl w x s = fst (U_overflowing_shl w x s) /\
+  U_wrapping_shr w x s = fst (U_overflowing_shr w x s) /\
+  I_wrapping_shl w x s = fst (U_overflowing_shl w x s) /\
+  I_wrapping_shr w x s = fst (I_overflowing_shr w x s).
+Proof. repeat split. Qed.
